@@ -162,7 +162,7 @@ def checker_validation(prop):
                 r2 = []
             out["refactorings"] = len([x for x in r2 if x["status"] != "skipped"])
             out["refactorings_silent"] = len([x for x in r2 if x["status"] == "MISSED"])
-            out["refactorings_alarmed"] = [x["name"] for x in r2 if x["status"] == "caught"]
+            out["refactorings_alarmed"] = [x["name"] for x in r2 if x["status"] in ("caught", "CRASHED")]
         # catch rate under refactoring: each seeded change of this property on top of every
         # refactoring of the same files (where the two patches compose and compile)
         js3 = os.path.join(td, "x.json")
